@@ -358,7 +358,7 @@ Options:
 	logger := _log.New(_os.Stderr, "", 0)
 	if args.List {
 		if err := list(); err != nil {
-			_log.Println(err)
+			logger.Println("Error:", err)
 			_os.Exit(1)
 		}
 		return
